@@ -567,6 +567,37 @@ func c08OpenOnce(r *Run, p *Prog) {
 				}
 			})
 			r.Check(stF && stM, "open-once", fnName(fn)+": a successful open records File and Mode", fn.Pos(), "open does not record the file or the mode: read/write gating sees stale state")
+			// … on every way to a success return (a branch that records the file but not the mode leaves the fid gated
+			// by whatever mode it had: a directory opened for writing can be read)
+			viaF, viaM := map[*ssa.BasicBlock]bool{}, map[*ssa.BasicBlock]bool{}
+			eachInstr(fn, func(in ssa.Instruction) {
+				st, ok := in.(*ssa.Store)
+				if !ok {
+					return
+				}
+				fad, ok := st.Addr.(*ssa.FieldAddr)
+				if !ok || fad.X != refParam {
+					return
+				}
+				switch fieldName(fad.X.Type(), fad.Field) {
+				case "File":
+					if !isNilConst(st.Val) {
+						viaF[st.Block()] = true
+					}
+				case "Mode":
+					viaM[st.Block()] = true
+				}
+			})
+			if stF && stM {
+				for _, ret := range returnsOf(fn) {
+					if len(ret.Results) == 0 || !isNilConst(ret.Results[len(ret.Results)-1]) {
+						continue
+					}
+					okAll := (viaF[ret.Block()] || allPathsThrough(fn, viaF, ret.Block())) && (viaM[ret.Block()] || allPathsThrough(fn, viaM, ret.Block()))
+					r.Check(okAll, "open-once", fnName(fn)+": every successful exit has recorded File and Mode", ret.Pos(),
+						"a successful exit is reachable without recording the file or the mode")
+				}
+			}
 		}
 	}
 	r.Floor("open-once", n, 2, "Dirent.Open/OpenDir call sites")
